@@ -299,6 +299,8 @@ var entryPoints = []entryPoint{
 	{"Insert-front-of-full-list", func(v any) slot { return slot{l: at.NewList(0, 1).Concat(at.NewList(2)).Insert(0, v), idx: 0} }},
 	{"Replace", func(v any) slot { return slot{l: at.NewList(0).Replace(0, v)} }},
 	{"list.SetTF-leaf", func(v any) slot { return slot{l: at.NewList().SetTF("#2", v), idx: 2} }},
+	{"list.SetTF-padded-nested", func(v any) slot { return slot{l: at.NewList(1).SetTF("#3#2", v).GetList(3), idx: 2} }},
+	{"list.SetTF-padded-nested-object", func(v any) slot { return slot{o: at.NewList(1, 2).SetTF("#4#1.k", v).GetList(4).GetObject(1), key: "k"} }},
 	{"list.SetTF-replace", func(v any) slot { return slot{l: at.NewList(0, 1).SetTF("#1", v), idx: 1} }},
 	{"list.SetTF-nested", func(v any) slot { return slot{o: at.NewList().SetTF("#0.k", v).GetObject(0), key: "k"} }},
 	{"object.SetTF-leaf", func(v any) slot { return slot{o: at.NewObject().SetTF(".k", v), key: "k"} }},
@@ -590,6 +592,23 @@ func runC12(c *fw.Ctx) {
 		[]at.Object{nil}, []at.List{nil, nil}, []at.Object{at.NewObject("x", 1), nil}, map[string]at.Object{"n": nil}, map[string]at.List{"n": nil, "l": at.NewList(1)},
 		[]any{[]at.List{nil}, map[string]at.Object{"n": nil}}, []int{}, []string{}, []float64{}, []bool{}, []any{[]any{}, []int{}, map[string]any{}},
 		map[string]any{"i8": int8(-1), "u8": uint8(255), "i16": int16(-300), "u16": uint16(65535), "i32": int32(-70000), "u32": uint32(70000), "i64": int64(-1), "u64": uint64(1), "u": uint(2), "f32": float32(1.5)},
+	}
+	// deeply nested native values (9..40 levels of []any / map[string]any in every alternation)
+	for depth := 9; depth <= 40; depth += []int{1, 1, 2, 3, 5, 8}[(depth-9)%6] {
+		for variant := 0; variant < 3; variant++ {
+			var v any = []any{7, "leaf"}
+			for d := 0; d < depth; d++ {
+				switch {
+				case variant == 0, variant == 2 && d%2 == 0:
+					v = []any{v}
+				case variant == 1:
+					v = []any{d, v, "behind"}
+				default:
+					v = map[string]any{"k": v, "side": []any{d}}
+				}
+			}
+			flav = append(flav, v)
+		}
 	}
 	c.Cases("map-slice-flavours", len(flav), true, func(i int, r *rng.R) {
 		c.Distinct(fmt.Sprintf("flavour %d", i))
